@@ -130,7 +130,7 @@ SDense(st, approx) == LET np == Len(st.Dpp) IN Transp([j \in 1..np |-> SpmvRun(s
 SDef(st, approx) ==
     LET np == Len(st.Dpp)
         nu == Len(st.Duu)
-        inv == IF approx THEN [r \in 1..nu |-> [c \in 1..nu |-> IF r = c THEN st.dia[r] ELSE RZero]] ELSE Inverse(st.Duu)
+        inv == IF approx THEN [r \in 1..nu |-> [c \in 1..nu |-> IF r = c THEN st.dia[r] ELSE RZero]] ELSE InverseM(st.Duu)
     IN  IF nu = 0 THEN st.Dpp ELSE MSubR(st.Dpp, MM(st.Dpu, MM(inv, st.Dup, np), np))
 \* the operator spmv realises is the Schur complement, whatever adjust_p is
 SchurOpOK(st, approx) == MEq(SDense(st, approx), SDef(st, approx))
